@@ -304,6 +304,34 @@ Proof.
 Qed.
 Print Assumptions C15_querier_blocks.
 
+(* a read fault in the middle of a page (cur.Get fails with an error other than io.EOF after k records: chunk read fault,
+   request context cancelled between two reads) ends the block like every other end of the loop: with its Release *)
+Theorem C15_querier_fault_released : forall early0 r rq k e,
+  paired (query_ops_v false early0 r rq k e) = true /\
+  query_ops_v false early0 r rq k e = query_ops early0 r rq k.
+Proof.
+  intros early0 r rq k e. assert (E : query_ops_v false early0 r rq k e = query_ops early0 r rq k).
+  { unfold query_ops_v, query_ops, finish_ops_v. destruct (gate early0 rq); try reflexivity. destruct e; reflexivity. }
+  split; [rewrite E; apply query_ops_paired|exact E].
+Qed.
+Print Assumptions C15_querier_fault_released.
+
+(* a querier that answers the read fault at once, before Release (`early_return`): its block is not paired, and
+   (1) an uncached cursor is never closed -- after the time-outs and every sweep its partition is still acquired;
+   (2) a cached one stays marked busy: the next request with its id is refused although nobody uses the cursor, and when
+       busyTo has passed the sweeper drops the entry without closing the cursor: the partition stays acquired for ever *)
+Theorem C15_querier_fault_early_return_refuted :
+  let rq c := {| q_wait := c; q_limit := 5; q_id := 5; q_query := 0; q_qr := QParts [0%N]; q_pos := PHead; q_fresh := 100 |} in
+  paired (query_ops_v true false 0 (rq 0%Z) 2 RFault) = false /\
+  (let s := final code_variant 10 3 7 (query_ops_v true false 0 (rq 0%Z) 2 RFault ++ [OTick 22; OSweepTime; OSweepTime; OSweepSize]) in
+   p_curs s = [] /\ c_live (p_cur s 0) = true /\ c_rels (p_cur s 0) = 0 /\ p_acq s 0%N = 1%Z) /\
+  (let ops := query_ops_v true false 0 (rq 1%Z) 2 RFault in
+   nth 4 (results_of code_variant 10 3 7 (ops ++ query_ops false 1 (rq 1%Z) 0)) RNone = RRefused /\
+   let s := final code_variant 10 3 7 (ops ++ [OTick 22; OSweepTime; OSweepTime]) in
+   p_curs s = [] /\ c_live (p_cur s 0) = true /\ c_rels (p_cur s 0) = 0 /\ p_acq s 0%N = 1%Z).
+Proof. vm_compute. repeat split; reflexivity. Qed.
+Print Assumptions C15_querier_fault_early_return_refuted.
+
 (* ... and for the code as it is nothing in the cache is busy then (with C15_no_panic the hypothesis on the outcome is
    void): a busy cache entry is always in the hands of a request *)
 Theorem C15_busy_is_held : forall max idle busyto ops,
